@@ -150,6 +150,9 @@ pub fn check_pair(r: &Roots, base_arg: &str, arg: &str) -> Result<bool, String> 
             return Err(format!("path '{}' of a filesystem created at process start compares equal to the same path of a filesystem created just now", s));
         }
         let foreign = r.other.join(&expect).map_err(|e| e.to_string())?;
+        if old_one == foreign || *elder() == r.other {
+            return Err(format!("path '{}' of a filesystem created at process start compares equal to the same path of a filesystem created just now", s));
+        }
         if foreign == joined {
             return Err(format!("paths '{}' of two different filesystem instances compare equal", s));
         }
